@@ -25,7 +25,7 @@ open NiftyVerif NiftyVerif.Gen.Ptw NiftyVerif.Expr
 
 section generic
 variable {K : Type} [Zero K] [Add K] [Sub K] [Mul K] [Div K] [Neg K] [OfScientific K]
-  [LT K] [DecidableLT K] [LE K] [DecidableLE K] [Transc K]
+  [LT K] [DecidableLT K] [LE K] [DecidableLE K] [Transc K] [Conj K]
 
 def AgreeOn (d : Dom) (ρ1 ρ2 : MVal K) : Prop := ∀ kn ∈ d, ρ1 kn.1 = ρ2 kn.1
 
@@ -251,6 +251,32 @@ theorem energyAdapter_constants (ck : List String) (e : Ex K) (pos : MVal K) :
   funext k
   simp only [insertC]
   split <;> simp_all
+
+/-- **constant output part**: `simplify_for_constant_input` never returns a constant output (`c_out is None`) — every base
+    case returns `None`, and `ConstCollector.add/mult` only ever see `None`; hence the overwrite in `ConstCollector.add`
+    (DESIGN.md §6 #10) is unreachable.  The harness asserts `c_out is None` on every real case. -/
+theorem cout_none (ck : List String) (cs : MVal K) (e : Ex K) : cout ck cs e = none := by
+  induction e with
+  | var k n => rfl
+  | const en d v => rfl
+  | add a b iha ihb => simp only [cout, iha, ihb, CC.add, CC.empty]; split <;> rfl
+  | sub a b iha ihb => simp only [cout, iha, ihb, CC.add, CC.empty]; split <;> rfl
+  | mul a b iha ihb => simp only [cout, iha, ihb, CC.mult, CC.empty]; split <;> rfl
+  | vdot a b iha ihb => simp only [cout, iha, ihb, CC.mult, CC.empty]
+  | bil m na nb T a b iha ihb => simp only [cout, iha, ihb, CC.mult, CC.empty]
+  | varcov n a b iha ihb => simp only [cout, iha, ihb, CC.add, CC.empty]
+  | scale c a iha => simp only [cout, iha]
+  | addc c neg a iha => simp only [cout, iha]
+  | mulc d a iha => simp only [cout, iha]
+  | ptw f p a iha => simp only [cout, iha]
+  | lin m n rows a iha => simp only [cout, iha]
+  | sum a iha => simp only [cout, iha]
+  | getKey k a iha => simp only [cout, iha]
+  | putKey k a iha => simp only [cout, iha]
+  | chain f g ihf ihg => simp only [cout, ihg]
+  | sqnorm a iha => simp only [cout, iha]
+  | quad d a iha => simp only [cout, iha]
+  | gauss data icov a iha => simp only [cout, iha]
 
 /-- `make_partial_var`: adjoint / gradient components of the constant keys vanish, identically -/
 theorem partialVar_grad_zero (e : Ex K) (ρ y : MVal K) (ck : List String) (wm : Bool) (k : String) (i : Nat)
